@@ -267,7 +267,7 @@ func genSamplers(check string) func(r *Rng, tier string, p *Plan) {
 			at := r.I64n(horizon) / 1000 * 1000
 			switch r.Intn(5) {
 			case 0:
-				op := Op{K: "reload", At: at, S: "rules", N: int64(r.Intn(2))}
+				op := Op{K: "reload", At: at, S: "rules", N: int64(r.Intn(2)), B: r.Bool(0.3)}
 				if r.Bool(0.5) {
 					// traffic during the reload: a fresh trace is decided while the
 					// collector's reload callback is half done
@@ -285,6 +285,17 @@ func genSamplers(check string) func(r *Rng, tier string, p *Plan) {
 				p.Add(Op{K: "peers_race", At: at, I: int64(1000 + i), J: int64(r.Intn(4)), S: PickOf(r, "envA", "envB", "envC"), N: int64(PickOf(r, 1, 2, 3, 5, 10))})
 			default:
 				p.Add(Op{K: "peers", At: at, N: int64(PickOf(r, 1, 2, 3, 4, 5, 10, 50))})
+			}
+		}
+		if r.Bool(0.25) {
+			// for a while the peer list cannot be read: samplers created (or
+			// re-created after a reload) meanwhile still get the cluster-size goal
+			// from the last count that could
+			a := r.I64n(horizon) / 1000 * 1000
+			p.Add(Op{K: "peers_fail", At: a, N: 1})
+			p.Add(Op{K: "peers_fail", At: a + PickOf(r, int64(200_000), 600_000, 1_500_000), N: 0})
+			if r.Bool(0.7) {
+				p.Add(Op{K: "reload", At: a + 50_000, S: "rules", N: int64(r.Intn(2))})
 			}
 		}
 		p.SortOps()
@@ -392,6 +403,14 @@ func checkSamplerSharing(w *worldA, where string) {
 }
 
 func checkGoals(w *worldA, where string) {
+	// the cluster size the factory can know: the current one - or 1 (what it
+	// starts with) if the peer list has never been readable so far
+	peers := w.peerCount
+	w.gpeers.mu.Lock()
+	if !w.gpeers.everRead {
+		peers = 1
+	}
+	w.gpeers.mu.Unlock()
 	for _, l := range w.liveSamplers() {
 		goal, ucs, ok := cfgGoal(l.cfg)
 		if !ok {
@@ -403,19 +422,19 @@ func checkGoals(w *worldA, where string) {
 		}
 		want := goal
 		if ucs {
-			want = goal / w.peerCount
+			want = goal / peers
 			if want < 1 {
 				want = 1
 			}
 			w.out.Probe("cluster_size_goal_checked")
-			if w.peerCount > 1 {
+			if peers > 1 {
 				w.out.Probe("cluster_size_goal_checked_multi_peer")
 			}
 		} else {
 			w.out.Probe("fixed_goal_checked")
 		}
 		if int(got) != want {
-			w.out.Violate("C13", "throughput_goal", "sample.SamplerFactory", "%s: %q %s (worker %d) %s: goal in force %v, want %d (configured %d, UseClusterSize=%v, peers=%d)", where, l.scope, l.path, l.worker, descr(l.cfg), got, want, goal, ucs, w.peerCount)
+			w.out.Violate("C13", "throughput_goal", "sample.SamplerFactory", "%s: %q %s (worker %d) %s: goal in force %v, want %d (configured %d, UseClusterSize=%v, peers=%d)", where, l.scope, l.path, l.worker, descr(l.cfg), got, want, goal, ucs, peers)
 		}
 	}
 }
